@@ -430,6 +430,7 @@ pub fn reuse_cfg() -> impl Strategy<Value = ReuseCfg> {
         1 => Just(ReuseCfg::Enabled),
         2 => (0u8..=4).prop_map(ReuseCfg::Max),
         1 => any::<u8>().prop_map(ReuseCfg::Max),
+        1 => prop_oneof![Just(255u8), Just(254u8), Just(128u8), Just(1u8)].prop_map(ReuseCfg::Max),
     ]
 }
 
